@@ -2171,3 +2171,527 @@ Proof.
     + destruct (Hf d a Hc Ha) as [Hs Hav]. apply ga_fcolumn_Aggregate_eq; assumption.
     + apply ga_bcolumn_Aggregate_eq.
 Qed.
+
+(* ================================================================== wave 11: string / enum Aggregate, string Subset *)
+
+(* ------------------------------------------------------------------ an scolumn.Column read back as a model column *)
+
+(* one optional string per pointer: what bytesAt answers at that row *)
+Definition abs_scol_cell (x : outcome (bytes * bool)) : option bytes :=
+  match x with Ok (s, false) => Some s | _ => None end.
+Definition abs_scol (c : ga_scolumn_Column) : coldata :=
+  SCol (map (fun i => abs_scol_cell (ga_scolumn_Column_bytesAt c (Z.of_nat i)))
+            (seq 0 (length (ga_scolumn_Column_pointers c)))).
+
+Lemma map_seq_nth_error {T} (d : list T) : forall (f : nat -> T),
+  (forall i x, nth_error d i = Some x -> f i = x) -> map f (seq 0 (length d)) = d.
+Proof.
+  induction d as [|x d IH]; intros f H; cbn [length seq map]; [reflexivity|].
+  rewrite (H 0%nat x eq_refl). f_equal. rewrite <- seq_shift, map_map. apply IH.
+  intros i y Hy. apply (H (S i) y Hy).
+Qed.
+
+Lemma abs_scol_rep (c : ga_scolumn_Column) (d : list (option bytes)) :
+  rep_scol c d -> length (ga_scolumn_Column_pointers c) = length d -> abs_scol c = SCol d.
+Proof.
+  intros Hrep Hlen. unfold abs_scol. rewrite Hlen. f_equal. apply map_seq_nth_error.
+  intros i x Hx. rewrite Hrep, Hx. destruct x; reflexivity.
+Qed.
+
+(* scolumn.New(strs) read back is the string column of strs (within the limits of pointer.go) *)
+Lemma abs_scol_New (strs : list (option bytes)) :
+  strs_small strs 0 -> abs_scol (ga_mk_scolumn_Column (layout strs 0) (bytes_of strs)) = SCol strs.
+Proof.
+  intro H. apply abs_scol_rep; [exact (rep_scol_New strs H)|]. cbn [ga_scolumn_Column_pointers]. apply layout_length.
+Qed.
+
+(* ------------------------------------------------------------------ scolumn / ecolumn: Column.Aggregate *)
+
+Definition cell_str (c : cell) : outcome (option bytes) := match c with CStr s => Ok s | _ => Panic end.
+Lemma cell_str_nofail c : cell_str c <> Fail.
+Proof. destruct c; discriminate. Qed.
+Lemma col_of_cells_string cells : col_of_cells TString cells = (do d <- omap cell_str cells; Ok (SCol d)).
+Proof. reflexivity. Qed.
+
+Notation cells_str := (cells_T CStr cell_str).
+
+(* the type switch of scolumn / ecolumn on the model's function values: a string, a func([]*string) *string (a user
+   table over string cells; a result cell that is not a string is a model fault), other *)
+Definition m_fn_cases_string (fn : aggfn) : ga_fncase (option bytes) :=
+  match fn with
+  | GName n => ga_FnString n
+  | GUser TString tbl => ga_FnFunc (cells_str (user_apply tbl))
+  | _ => ga_FnOther
+  end.
+
+Lemma agg_vals_SCol d g : agg_vals (SCol d) g = omap1 (map CStr) (omap (idx d) g).
+Proof.
+  unfold agg_vals. induction g as [|p g IH]; cbn [omap omap1 map]; [reflexivity|].
+  unfold agg_cell_at at 1. cbn [cell_at]. destruct (idx d p); cbn [obind]; [|reflexivity|reflexivity].
+  rewrite IH. destruct (omap (idx d) g); reflexivity.
+Qed.
+
+(* the enum column hands the function c.values[v] (nil for the null rank) *)
+Definition enum_ptr (d : list N) (values : list bytes) (p : nat) : outcome (option bytes) :=
+  do r <- idx d p; enum_string values r.
+
+Lemma agg_vals_ECol d values strict g :
+  agg_vals (ECol d values strict) g = omap1 (map CStr) (omap (enum_ptr d values) g).
+Proof.
+  unfold agg_vals. induction g as [|p g IH]; cbn [omap omap1 map]; [reflexivity|].
+  unfold agg_cell_at at 1, enum_ptr at 1. cbn [cell_at]. destruct (idx d p) as [r| |]; cbn [obind]; [|reflexivity|reflexivity].
+  destruct (enum_string values r); cbn [obind]; [|reflexivity|reflexivity].
+  rewrite IH. destruct (omap (enum_ptr d values) g); reflexivity.
+Qed.
+
+Lemma enum_ptr_nofail d values p : enum_ptr d values p <> Fail.
+Proof.
+  unfold enum_ptr. apply obind_nofail; [apply idx_nofail|]. intro r. unfold enum_string.
+  destruct (enum_is_null r); [discriminate|]. apply obind_nofail; [apply idx_nofail|discriminate].
+Qed.
+
+(* agg_core for a column whose cells are READ through rd and whose result is a column of another constructor
+   (the enum column: ranks in, strings out) *)
+Section AggCore2.
+  Context {T : Type} (inj : T -> cell) (proj : cell -> outcome T) (mkcol : list T -> coldata) (ct : ctype).
+  Variable cin : coldata.
+  Variable rd : nat -> outcome T.
+  Hypothesis Hproj_nf : forall c, proj c <> Fail.
+  Hypothesis Hrd_nf : forall p, rd p <> Fail.
+  Hypothesis Hvals : forall g, agg_vals cin g = omap1 (map inj) (omap rd g).
+  Hypothesis Hcol : forall cells, col_of_cells ct cells = (do d <- omap proj cells; Ok (mkcol d)).
+
+  Definition group_cell2 (fnc : list cell -> outcome cell) (g : list nat) : outcome cell :=
+    do vals <- agg_vals cin g; fnc vals.
+
+  Lemma group_cell2_nofail fnc g : (forall vals, fnc vals <> Fail) -> group_cell2 fnc g <> Fail.
+  Proof.
+    intro H. unfold group_cell2. apply obind_nofail; [|exact H]. rewrite Hvals.
+    pose proof (omap_not_fail rd g (fun x _ => Hrd_nf x)) as Hn.
+    destruct (omap rd g); cbn [omap1]; congruence.
+  Qed.
+
+  Lemma agg_core2 (fz : list T -> outcome T) (fnc : list cell -> outcome cell) (gs : list (list nat)) :
+    (forall vals, fz vals = cells_T inj proj fnc vals) ->
+    (forall vals, fnc vals <> Fail) ->
+    (do data <- omap (fun g => do vals <- omap rd g; fz vals) gs; Ok (Some (mkcol data), @None unit))
+    = agg_pair (do cells <- omap (group_cell2 fnc) gs; col_of_cells ct cells).
+  Proof.
+    intros HR Hnf.
+    rewrite (omap_ext _ (fun g => do c <- group_cell2 fnc g; proj c) gs).
+    2:{ intros g. unfold group_cell2. rewrite Hvals.
+        destruct (omap rd g) as [vals| |] eqn:E; cbn [omap1 obind]; [|reflexivity|reflexivity]. apply HR. }
+    rewrite <- (omap_fuse (group_cell2 fnc) proj gs (fun g => group_cell2_nofail fnc g Hnf) Hproj_nf).
+    pose proof (omap_not_fail (group_cell2 fnc) gs (fun g _ => group_cell2_nofail fnc g Hnf)) as Hn.
+    destruct (omap (group_cell2 fnc) gs) as [cells| |]; cbn [obind omap1 agg_pair]; [|congruence|reflexivity].
+    rewrite Hcol. pose proof (omap_not_fail proj cells (fun c _ => Hproj_nf c)) as Hc.
+    destruct (omap proj cells); cbn [obind omap1 agg_pair app]; [reflexivity|congruence|reflexivity].
+  Qed.
+End AggCore2.
+
+Lemma omap1_app_nil {T} (x : outcome (list T)) : omap1 (app []) x = x.
+Proof. destruct x; reflexivity. Qed.
+
+(* the loop of Aggregate: data = append(data, t(c.stringSlice(ix))) — one fresh slice per group *)
+Lemma ga_s_Aggregate_loop_eq (c : ga_scolumn_Column) (t : list (option bytes) -> outcome (option bytes))
+  (l : list (list Z)) : forall data,
+  ga_scolumn_Column_Aggregate_loop1 l c t data
+  = omap1 (app data) (omap (fun ix => do vals <- ga_scolumn_Column_stringSlice c ix; t vals) l).
+Proof.
+  induction l as [|ix l IH]; intro data; cbn [ga_scolumn_Column_Aggregate_loop1 omap omap1].
+  - now rewrite app_nil_r.
+  - destruct (ga_scolumn_Column_stringSlice c ix) as [vals| |]; cbn [obind omap1]; [|reflexivity|reflexivity].
+    destruct (t vals) as [r| |]; cbn [obind omap1]; [|reflexivity|reflexivity].
+    rewrite IH. destruct (omap _ l); cbn [omap1 obind]; [|reflexivity|reflexivity]. now rewrite <- app_assoc.
+Qed.
+
+Lemma ga_e_Aggregate_loop_eq (c : ga_ecolumn_Column) (t : list (option bytes) -> outcome (option bytes))
+  (l : list (list Z)) : forall data,
+  ga_ecolumn_Column_Aggregate_loop1 l c t data
+  = omap1 (app data) (omap (fun ix => do vals <- ga_ecolumn_Column_stringSlice c ix; t vals) l).
+Proof.
+  induction l as [|ix l IH]; intro data; cbn [ga_ecolumn_Column_Aggregate_loop1 omap omap1].
+  - now rewrite app_nil_r.
+  - destruct (ga_ecolumn_Column_stringSlice c ix) as [vals| |]; cbn [obind omap1]; [|reflexivity|reflexivity].
+    destruct (t vals) as [r| |]; cbn [obind omap1]; [|reflexivity|reflexivity].
+    rewrite IH. destruct (omap _ l); cbn [omap1 obind]; [|reflexivity|reflexivity]. now rewrite <- app_assoc.
+Qed.
+
+(* the limits of pointer.go on the strings the function returned: the premise of both Aggregate theorems *)
+Definition agg_result_small (ft : float_table) (c : coldata) (gs : list (list nat)) (fn : aggfn) : Prop :=
+  forall r, col_aggregate ft c gs fn = Ok (SCol r) -> strs_small r 0.
+
+(* New(data) read back, under the premise on the result *)
+Lemma agg_New_tail (X : outcome (list (option bytes))) (R : outcome coldata) :
+  (do data <- X; Ok (Some (SCol data), @None unit)) = agg_pair R ->
+  (forall r, R = Ok (SCol r) -> strs_small r 0) ->
+  (do data <- X; do t4 <- ga_scolumn_New data; Ok (Some (abs_scol t4), @None unit)) = agg_pair R.
+Proof.
+  intros H Hsmall. destruct X as [data| |]; cbn [obind] in *; [|exact H|exact H].
+  rewrite ga_scolumn_New_eq. cbn [obind]. rewrite abs_scol_New; [exact H|].
+  apply Hsmall. destruct R as [r| |]; cbn [agg_pair] in H; [|discriminate|discriminate]. congruence.
+Qed.
+
+Lemma ga_scolumn_Aggregate_eq (ft : float_table) (c : ga_scolumn_Column) (d : list (option bytes))
+  (gs : list (list nat)) (fn : aggfn) :
+  rep_scol c d -> agg_result_small ft (SCol d) gs fn ->
+  ga_scolumn_Column_Aggregate m_new_error m_fn_cases_string m_fn_text abs_scol c (map ints gs) fn
+  = m_col_Aggregate ft (SCol d) (map ints gs) fn.
+Proof.
+  intros Hrep Hsmall. rewrite m_col_Aggregate_ints. fold (agg_pair (col_aggregate ft (SCol d) gs fn)).
+  unfold ga_scolumn_Column_Aggregate. unfold agg_result_small in Hsmall. revert Hsmall.
+  unfold col_aggregate, resolve_fn.
+  change (col_type (SCol d)) with TString. change (col_ftype (SCol d)) with TString. change (agg_table_of TString) with (@nil (bytes * bytes)).
+  pose proof (agg_core CStr cell_str SCol TString cell_str_nofail agg_vals_SCol col_of_cells_string d) as Core.
+  destruct fn as [n|t tbl|]; cbn [m_fn_cases_string assocb]; intro Hsmall.
+  - reflexivity.
+  - destruct t; cbn [ctype_eqb andb negb obind agg_pair]; try reflexivity.
+    cbn [ctype_eqb andb negb obind] in Hsmall.
+    rewrite gap_make0 by lia. cbn [obind]. rewrite ga_s_Aggregate_loop_eq.
+    apply agg_New_tail; [|exact Hsmall].
+    etransitivity; [|exact (Core (cells_str (user_apply tbl)) (user_apply tbl) gs (fun _ _ _ _ => eq_refl) (user_apply_nofail tbl))].
+    f_equal. f_equal. rewrite !omap_map. apply omap_ext. intro g. unfold gv.
+    now rewrite (ga_s_stringSlice_eq c d g Hrep), ga_index_ints.
+  - reflexivity.
+Qed.
+
+Lemma ga_ecolumn_Aggregate_eq (ft : float_table) (d : list N) (values : list bytes) (strict : bool)
+  (gs : list (list nat)) (fn : aggfn) :
+  agg_result_small ft (ECol d values strict) gs fn ->
+  ga_ecolumn_Column_Aggregate m_new_error m_fn_cases_string m_fn_text abs_scol (emb_ecol d values strict) (map ints gs) fn
+  = m_col_Aggregate ft (ECol d values strict) (map ints gs) fn.
+Proof.
+  intros Hsmall. rewrite m_col_Aggregate_ints. fold (agg_pair (col_aggregate ft (ECol d values strict) gs fn)).
+  unfold ga_ecolumn_Column_Aggregate. unfold agg_result_small in Hsmall. revert Hsmall.
+  unfold col_aggregate, resolve_fn.
+  change (col_type (ECol d values strict)) with TEnum. change (col_ftype (ECol d values strict)) with TString.
+  change (agg_table_of TEnum) with (@nil (bytes * bytes)).
+  pose proof (agg_core2 CStr cell_str SCol TString (ECol d values strict) (enum_ptr d values) cell_str_nofail
+                (enum_ptr_nofail d values) (agg_vals_ECol d values strict) col_of_cells_string) as Core.
+  destruct fn as [n|t tbl|]; cbn [m_fn_cases_string assocb]; intro Hsmall.
+  - reflexivity.
+  - destruct t; cbn [ctype_eqb andb negb obind agg_pair]; try reflexivity.
+    cbn [ctype_eqb andb negb obind] in Hsmall.
+    rewrite gap_make0 by lia. cbn [obind]. rewrite ga_e_Aggregate_loop_eq.
+    apply agg_New_tail; [|exact Hsmall].
+    etransitivity; [|exact (Core (cells_str (user_apply tbl)) (user_apply tbl) gs (fun _ => eq_refl) (user_apply_nofail tbl))].
+    f_equal. rewrite omap_map.
+    rewrite (omap_ext _ (fun g => do vals <- omap (enum_ptr d values) g; cells_str (user_apply tbl) vals) gs).
+    2:{ intro g. now rewrite ga_e_stringSlice_eq. }
+    apply omap1_app_nil.
+  - reflexivity.
+Qed.
+
+(* ------------------------------------------------------------------ scolumn: Column.subset / Column.Subset *)
+
+(* bytesAt is the cell of the pointer at that row *)
+Definition ptr_cell (D : bytes) (p : Z) : outcome (bytes * bool) :=
+  if gf_strings_Pointer_IsNull p then Ok ([], true)
+  else do t <- ga_slice D (gf_strings_Pointer_Offset p) (gf_strings_Pointer_Offset p + gf_strings_Pointer_Len p);
+       Ok (t, false).
+
+Lemma ga_bytesAt_ptr_cell (c : ga_scolumn_Column) (i : Z) :
+  ga_scolumn_Column_bytesAt c i
+  = (do p <- ga_index (ga_scolumn_Column_pointers c) i; ptr_cell (ga_scolumn_Column_data c) p).
+Proof. reflexivity. Qed.
+
+(* THE INVARIANT of subset relative to rep_scol: the pointers of a subset are the layout of its strings EXCEPT that
+   the pointer of a null row carries the length field of the source pointer (ls), which no reader looks at *)
+Fixpoint layoutL (ls : list Z) (strs : list (option bytes)) (off : Z) : list Z :=
+  match strs with
+  | [] => []
+  | None :: r => gf_strings_NewPointer off (hd 0 ls) true :: layoutL (tl ls) r off
+  | Some s :: r => gf_strings_NewPointer off (Z.of_nat (length s)) false :: layoutL (tl ls) r (off + Z.of_nat (length s))
+  end.
+
+Lemma layoutL_length strs : forall ls off, length (layoutL ls strs off) = length strs.
+Proof. induction strs as [|[s|] r IH]; intros ls off; cbn [layoutL length]; [reflexivity| |]; now rewrite IH. Qed.
+
+Definition lens_ok (ls : list Z) : Prop := Forall (fun x => 0 <= x < 2^28) ls.
+
+Lemma lens_ok_hd ls : lens_ok ls -> 0 <= hd 0 ls < 2^28.
+Proof. intro H. destruct ls as [|x ls]; cbn [hd]; [lia|]. now inversion H. Qed.
+Lemma lens_ok_tl ls : lens_ok ls -> lens_ok (tl ls).
+Proof. intro H. destruct ls as [|x ls]; cbn [tl]; [exact H|]. now inversion H. Qed.
+
+Lemma rep_layoutL (l : list (option bytes)) : forall (ls : list Z) (pre rest : bytes),
+  strs_small l (Z.of_nat (length pre)) -> lens_ok ls ->
+  forall i : nat,
+  ga_scolumn_Column_bytesAt (ga_mk_scolumn_Column (layoutL ls l (Z.of_nat (length pre))) (pre ++ bytes_of l ++ rest)) (Z.of_nat i)
+  = scol_cell (nth_error l i).
+Proof.
+  induction l as [|[s|] r IH]; intros ls pre rest [Hoff Hall] Hls i.
+  - cbn [layoutL]. unfold ga_scolumn_Column_bytesAt. cbn [ga_scolumn_Column_pointers]. rewrite gap_index.
+    destruct i; reflexivity.
+  - inversion Hall as [|? ? Hs Hr]; subst. cbn [str_bytes] in Hs.
+    unfold bytes_of in *. cbn [map concat str_bytes] in *. rewrite app_length in Hoff.
+    cbn [layoutL]. destruct i as [|i].
+    + unfold ga_scolumn_Column_bytesAt. cbn [ga_scolumn_Column_pointers ga_scolumn_Column_data].
+      change (Z.of_nat 0) with 0. cbn [ga_index Z.ltb Z.compare idx nth_error Z.to_nat of_option obind].
+      destruct (gap_pointer_roundtrip (Z.of_nat (length pre)) (Z.of_nat (length s)) false) as (H1 & H2 & H3); [lia|lia|].
+      rewrite H1, H2, H3. rewrite <- app_assoc. rewrite gap_slice_mid. reflexivity.
+    + rewrite gap_bytesAt_cons. cbn [nth_error].
+      replace (Z.of_nat (length pre) + Z.of_nat (length s)) with (Z.of_nat (length (pre ++ s))) by (rewrite app_length; lia).
+      replace (pre ++ (s ++ concat (map str_bytes r)) ++ rest) with ((pre ++ s) ++ concat (map str_bytes r) ++ rest)
+        by (now rewrite <- !app_assoc).
+      apply (IH (tl ls) (pre ++ s) rest); [|apply lens_ok_tl; exact Hls].
+      split; [rewrite app_length; unfold bytes_of; lia|exact Hr].
+  - inversion Hall as [|? ? Hs Hr]; subst.
+    unfold bytes_of in *. cbn [map concat str_bytes app] in *.
+    cbn [layoutL]. destruct i as [|i].
+    + unfold ga_scolumn_Column_bytesAt. cbn [ga_scolumn_Column_pointers ga_scolumn_Column_data].
+      change (Z.of_nat 0) with 0. cbn [ga_index Z.ltb Z.compare idx nth_error Z.to_nat of_option obind].
+      pose proof (lens_ok_hd ls Hls) as Hhd.
+      destruct (gap_pointer_roundtrip (Z.of_nat (length pre)) (hd 0 ls) true) as (H1 & H2 & H3); [lia|lia|].
+      rewrite H3. reflexivity.
+    + rewrite gap_bytesAt_cons. cbn [nth_error]. apply (IH (tl ls) pre rest); [|apply lens_ok_tl; exact Hls].
+      split; [unfold bytes_of; lia|exact Hr].
+Qed.
+
+(* Len() of ANY pointer value is a 28 bit number *)
+Lemma gap_pointer_len_range (p : Z) : 0 <= gf_strings_Pointer_Len p < 2^28.
+Proof.
+  unfold gf_strings_Pointer_Len. change 268435455 with (Z.ones 28). rewrite Z.land_ones by lia.
+  apply Z.mod_pos_bound. lia.
+Qed.
+
+Lemma gap_slice_length {T} (D : list T) (lo n : Z) (t : list T) :
+  ga_slice D lo (lo + n) = Ok t -> n = Z.of_nat (length t).
+Proof.
+  unfold ga_slice. destruct ((lo <? 0) || (lo + n <? lo) || (Z.of_nat (length D) <? lo + n)) eqn:E; [discriminate|].
+  intro H. inversion H; subst t. rewrite firstn_length, skipn_length. lia.
+Qed.
+
+(* the length fields of the source pointers at the positions of the index *)
+Definition lens (c : ga_scolumn_Column) (l : list nat) : list Z :=
+  map (fun p => gf_strings_Pointer_Len (nth p (ga_scolumn_Column_pointers c) 0)) l.
+
+Lemma lens_lens_ok c l : lens_ok (lens c l).
+Proof. unfold lens_ok, lens. apply Forall_forall. intros x Hx. apply in_map_iff in Hx. destruct Hx as (p & <- & _). apply gap_pointer_len_range. Qed.
+
+Lemma ga_s_subset_loop_eq (c : ga_scolumn_Column) (d : list (option bytes)) (Hrep : rep_scol c d) (l : list nat) :
+  forall (pre rest : list Z) data off,
+  length rest = length l ->
+  ga_scolumn_Column_subset_loop1 (ints l) (Z.of_nat (length pre)) c data (pre ++ rest) off
+  = omap1 (fun r => (data ++ bytes_of r, pre ++ layoutL (lens c l) r off, off + Z.of_nat (length (bytes_of r))))
+          (omap (idx d) l).
+Proof.
+  induction l as [|p l IH]; intros pre rest data off Hlen.
+  - destruct rest; [|discriminate]. cbn [ints map ga_scolumn_Column_subset_loop1 omap omap1 bytes_of concat layoutL length Z.of_nat].
+    now rewrite !app_nil_r, Z.add_0_r.
+  - destruct rest as [|r0 rest]; [discriminate|]. cbn [ints map ga_scolumn_Column_subset_loop1 omap]. fold (ints l).
+    pose proof (Hrep p) as Hp. rewrite ga_bytesAt_ptr_cell in Hp.
+    rewrite gap_index in *. unfold idx at 1. unfold idx at 1 in Hp.
+    destruct (nth_error (ga_scolumn_Column_pointers c) p) as [q|] eqn:Eq; cbn [of_option obind] in *.
+    2:{ unfold idx at 1. destruct (nth_error d p) as [[s|]|]; cbn [scol_cell] in Hp; try discriminate. reflexivity. }
+    rewrite gap_update_mid. cbn [obind]. rewrite gap_succ.
+    assert (Enth : nth p (ga_scolumn_Column_pointers c) 0 = q) by (apply nth_error_nth; exact Eq).
+    unfold ptr_cell in Hp. destruct (gf_strings_Pointer_IsNull q) eqn:En; cbn [negb obind].
+    + (* a null row: no bytes, the length field of the source pointer *)
+      unfold idx at 1. destruct (nth_error d p) as [[s|]|]; cbn [scol_cell] in Hp; try discriminate. cbn [of_option obind].
+      replace (S (length pre)) with (length (pre ++ [gf_strings_NewPointer off (gf_strings_Pointer_Len q) true]))
+        by (rewrite app_length; cbn; lia).
+      rewrite IH by (cbn in Hlen; lia).
+      destruct (omap (idx d) l) as [r| |]; cbn [omap1 obind]; [|reflexivity|reflexivity].
+      unfold bytes_of. cbn [map concat str_bytes app lens layoutL hd tl]. fold (lens c l). rewrite Enth.
+      now rewrite <- !app_assoc.
+    + destruct (ga_slice (ga_scolumn_Column_data c) (gf_strings_Pointer_Offset q)
+                  (gf_strings_Pointer_Offset q + gf_strings_Pointer_Len q)) as [t| |] eqn:Es; cbn [obind] in *.
+      * pose proof (gap_slice_length _ _ _ _ Es) as Hl.
+        unfold idx at 1. destruct (nth_error d p) as [[s|]|]; cbn [scol_cell] in Hp; try discriminate. cbn [of_option obind].
+        assert (s = t) by congruence. subst s. rewrite Hl.
+        replace (S (length pre)) with (length (pre ++ [gf_strings_NewPointer off (Z.of_nat (length t)) false]))
+          by (rewrite app_length; cbn; lia).
+        rewrite IH by (cbn in Hlen; lia).
+        destruct (omap (idx d) l) as [r| |]; cbn [omap1 obind]; [|reflexivity|reflexivity].
+        unfold bytes_of. cbn [map concat str_bytes app lens layoutL hd tl]. fold (lens c l).
+        rewrite <- !app_assoc, app_length. cbn [app]. f_equal. f_equal. lia.
+      * destruct (nth_error d p) as [[s|]|]; cbn [scol_cell] in Hp; discriminate.
+      * unfold idx at 1. destruct (nth_error d p) as [[s|]|]; cbn [scol_cell] in Hp; try discriminate. reflexivity.
+Qed.
+
+(* the struct subset builds, explicitly *)
+Definition sub_scol (c : ga_scolumn_Column) (ix : list nat) (r : list (option bytes)) : ga_scolumn_Column :=
+  ga_mk_scolumn_Column (layoutL (lens c ix) r 0) (bytes_of r).
+
+Lemma ga_scolumn_subset_eq (c : ga_scolumn_Column) (d : list (option bytes)) (ix : list nat) :
+  rep_scol c d ->
+  ga_scolumn_Column_subset c (ints ix) = omap1 (sub_scol c ix) (omap (idx d) ix).
+Proof.
+  intro Hrep. unfold ga_scolumn_Column_subset. rewrite gap_make0 by lia. cbn [obind].
+  unfold ints at 1 2. rewrite map_length, gap_make. cbn [obind]. fold (ints ix).
+  pose proof (ga_s_subset_loop_eq c d Hrep ix [] (repeat 0 (length ix)) [] 0 (repeat_length _ _)) as H.
+  cbn [length Z.of_nat app] in H. rewrite H.
+  destruct (omap (idx d) ix); reflexivity.
+Qed.
+
+Lemma rep_sub_scol (c : ga_scolumn_Column) (ix : list nat) (r : list (option bytes)) :
+  strs_small r 0 -> rep_scol (sub_scol c ix r) r.
+Proof.
+  intros H i. pose proof (rep_layoutL r (lens c ix) [] [] H (lens_lens_ok c ix) i) as R. cbn [length Z.of_nat app] in R.
+  rewrite app_nil_r in R. exact R.
+Qed.
+
+(* the limits of pointer.go on the strings of the subset *)
+Definition subset_small (d : list (option bytes)) (ix : list nat) : Prop :=
+  forall r, omap (idx d) ix = Ok r -> strs_small r 0.
+
+(* Column.subset: panics exactly when the model does, else a struct that represents the model's subset *)
+Lemma ga_scolumn_subset_rep (c : ga_scolumn_Column) (d : list (option bytes)) (ix : list nat) :
+  rep_scol c d -> subset_small d ix ->
+  match col_subset (SCol d) ix with
+  | Ok (SCol r) => exists c', ga_scolumn_Column_subset c (ints ix) = Ok c' /\ rep_scol c' r
+                              /\ length (ga_scolumn_Column_pointers c') = length r
+  | Ok _ => False
+  | Fail => False
+  | Panic => ga_scolumn_Column_subset c (ints ix) = Panic
+  end.
+Proof.
+  intros Hrep Hsmall. rewrite (ga_scolumn_subset_eq c d ix Hrep). cbn [col_subset].
+  pose proof (omap_not_fail (idx d) ix (fun x _ => idx_nofail d x)) as Hn.
+  destruct (omap (idx d) ix) as [r| |] eqn:E; cbn [obind omap1]; [|congruence|reflexivity].
+  exists (sub_scol c ix r). split; [reflexivity|]. split; [apply rep_sub_scol; apply Hsmall; exact E|].
+  cbn [sub_scol ga_scolumn_Column_pointers]. apply layoutL_length.
+Qed.
+
+(* Column.Subset with the result read back: the m_col_Subset of the frame level *)
+Lemma ga_scolumn_Subset_eq (c : ga_scolumn_Column) (d : list (option bytes)) (ix : list nat) :
+  rep_scol c d -> subset_small d ix ->
+  ga_scolumn_Column_Subset abs_scol c (ints ix) = m_col_Subset (SCol d) (ints ix).
+Proof.
+  intros Hrep Hsmall. unfold ga_scolumn_Column_Subset. rewrite (ga_scolumn_subset_eq c d ix Hrep), m_col_Subset_ints.
+  cbn [col_subset]. destruct (omap (idx d) ix) as [r| |] eqn:E; cbn [omap1 obind]; [|reflexivity|reflexivity].
+  rewrite (abs_scol_rep (sub_scol c ix r) r); [reflexivity|apply rep_sub_scol; apply Hsmall; exact E|].
+  cbn [sub_scol ga_scolumn_Column_pointers]. apply layoutL_length.
+Qed.
+
+(* ------------------------------------------------------------------ Grouper.Aggregate over frames with string and
+   enum columns: the composition with col.Subset asked only at the first elements of the groups *)
+
+Section Compose2.
+  Variable g : grouper.
+  Variable colS : coldata -> list Z -> outcome (option coldata).
+  Variable firsts : list nat.
+  Hypothesis HS : forall c, In c (map snd (gcols g)) -> colS c (ints firsts) = omap1 Some (col_subset c firsts).
+
+  Lemma ga_Aggregate_loop2_at (keys : list bytes) : forall acc,
+    ga_Grouper_Aggregate_loop2 colS keys (Z.of_nat (length acc)) (emb_grouper g) (ints firsts)
+      (emb_map acc) (emb_cols acc)
+    = omap1 (fun kc => (emb_map (acc ++ kc), emb_cols (acc ++ kc))) (omap (key_col g firsts) keys).
+  Proof.
+    induction keys as [|n keys IH]; intro acc; cbn [ga_Grouper_Aggregate_loop2 omap omap1].
+    - now rewrite app_nil_r.
+    - cbn [emb_grouper ga_Grouper_columnsByName]. rewrite gap_map_get. unfold key_col at 1.
+      rewrite lookup_col_gframe.
+      destruct (lookup_from n (gcols g) 0 None) as [[p c]|] eqn:El; cbn [fst option_map of_option obind snd];
+        [|reflexivity].
+      ncsimpl. cbn [ga_deref obind]. rewrite HS.
+      2:{ destruct (lookup_from_in _ _ _ _ _ _ El) as [H|H]; [exact H|discriminate]. }
+      destruct (col_subset c firsts) as [s| |]; cbn [omap1 obind]; [|reflexivity|reflexivity].
+      ncsimpl. rewrite emb_map_snoc, emb_cols_snoc, gap_succ.
+      replace (S (length acc)) with (length (acc ++ [(n, s)])) by (rewrite app_length; cbn; lia).
+      rewrite IH. destruct (omap (key_col g firsts) keys); cbn [omap1 obind]; [|reflexivity|reflexivity].
+      now rewrite <- app_assoc.
+  Qed.
+End Compose2.
+
+Definition group_firsts (g : grouper) : outcome (list nat) := omap (fun ix => idx ix 0%nat) (gindices g).
+
+Lemma ga_Grouper_Aggregate_gen_at (ft : float_table) (g : grouper)
+  (colS : coldata -> list Z -> outcome (option coldata))
+  (colA : coldata -> list (list Z) -> aggfn -> outcome (option coldata * option unit)) (aggs : list aggregation) :
+  (forall firsts c, group_firsts g = Ok firsts -> In c (map snd (gcols g)) ->
+     colS c (ints firsts) = omap1 Some (col_subset c firsts)) ->
+  Z.of_nat (length (gindices g)) < 4294967296 ->
+  (forall c a, In c (map snd (gcols g)) -> In a aggs -> is_count (agfn a) = false ->
+     colA c (map ints (gindices g)) (agfn a) = agg_pair (col_aggregate ft c (gindices g) (agfn a))) ->
+  ga_Grouper_Aggregate m_new_error m_propagate m_unknownCol m_fn_eq_string colS colA
+    m_icolumn_New (emb_grouper g) (map emb_agg aggs)
+  = omap1 emb_frame (aggregate ft g aggs).
+Proof.
+  intros HS Hn HA. unfold ga_Grouper_Aggregate, aggregate.
+  cbn [emb_grouper ga_Grouper_Err ga_Grouper_indices ga_Grouper_groupedColumns]. rewrite emb_err_nil.
+  destruct (gerr g); [reflexivity|].
+  rewrite map_length, gap_make. cbn [obind]. rewrite ga_Aggregate_firsts, obind_omap1.
+  unfold group_firsts in HS.
+  destruct (omap (fun ix => idx ix 0%nat) (gindices g)) as [firsts| |]; cbn [obind omap1]; [|reflexivity|reflexivity].
+  rewrite gap_make0 by lia. cbn [obind].
+  pose proof (ga_Aggregate_loop2_at g colS firsts (fun c Hc => HS firsts c eq_refl Hc) (gkeys g) []) as H2.
+  cbn [length Z.of_nat app] in H2.
+  change (emb_map []) with (@nil (bytes * NC)) in H2. change (emb_cols []) with (@nil NC) in H2.
+  fold (emb_grouper g). rewrite H2. clear H2.
+  change (fun n => do c <- of_option (lookup_col (gframe g) n); do s <- col_subset c firsts; Ok (n, s))
+    with (key_col g firsts).
+  destruct (omap (key_col g firsts) (gkeys g)) as [keycols| |]; cbn [omap1 obind]; [|reflexivity|reflexivity].
+  rewrite (ga_Aggregate_loop4_gen ft g colA aggs Hn HA).
+  destruct (ofold (agg_step ft g) aggs keycols); reflexivity.
+Qed.
+
+(* col.Subset / col.Aggregate dispatched on the column type to the TRANSLATED functions of all five column
+   packages; srep d is the Go struct (pointers + bytes) that holds the string column d *)
+Definition tr_col_Subset_all (srep : list (option bytes) -> ga_scolumn_Column) (fz : N) (c : coldata) (ix : list Z)
+  : outcome (option coldata) :=
+  match c with
+  | SCol d => ga_scolumn_Column_Subset abs_scol (srep d) ix
+  | _ => tr_col_Subset fz c ix
+  end.
+
+Definition tr_col_Aggregate_all (srep : list (option bytes) -> ga_scolumn_Column) (ft : float_table) (fzero : N)
+  (fadd fdiv : N -> N -> N) (fofint : Z -> N) (c : coldata) (ixs : list (list Z)) (fn : aggfn)
+  : outcome (option coldata * option unit) :=
+  match c with
+  | SCol d => ga_scolumn_Column_Aggregate m_new_error m_fn_cases_string m_fn_text abs_scol (srep d) ixs fn
+  | ECol d values strict =>
+      ga_ecolumn_Column_Aggregate m_new_error m_fn_cases_string m_fn_text abs_scol (emb_ecol d values strict) ixs fn
+  | _ => tr_col_Aggregate ft fzero fadd fdiv fofint c ixs fn
+  end.
+
+(* the premises about strings: every string column of the grouper is represented by its struct, and the limits of
+   pointer.go hold for the key rows of the string columns and for the strings the aggregation functions return *)
+Definition srep_ok (srep : list (option bytes) -> ga_scolumn_Column) (g : grouper) : Prop :=
+  forall d, In (SCol d) (map snd (gcols g)) -> rep_scol (srep d) d.
+Definition str_limits_ok (ft : float_table) (g : grouper) (aggs : list aggregation) : Prop :=
+  (forall d firsts, In (SCol d) (map snd (gcols g)) -> group_firsts g = Ok firsts -> subset_small d firsts) /\
+  (forall c a, In c (map snd (gcols g)) -> In a aggs -> agg_result_small ft c (gindices g) (agfn a)).
+
+Lemma ga_Grouper_Aggregate_composed_all (srep : list (option bytes) -> ga_scolumn_Column) (ft : float_table)
+  (fzero : N) (fadd fdiv : N -> N -> N) (fofint : Z -> N) (g : grouper) (aggs : list aggregation) :
+  Z.of_nat (length (gindices g)) < 4294967296 ->
+  float_oracle_ok ft fzero fadd fdiv fofint g aggs ->
+  srep_ok srep g -> str_limits_ok ft g aggs ->
+  ga_Grouper_Aggregate m_new_error m_propagate m_unknownCol m_fn_eq_string (tr_col_Subset_all srep fzero)
+    (tr_col_Aggregate_all srep ft fzero fadd fdiv fofint) m_icolumn_New (emb_grouper g) (map emb_agg aggs)
+  = omap1 emb_frame (aggregate ft g aggs).
+Proof.
+  intros Hn Hf Hrep [HsubS HaggS]. apply (ga_Grouper_Aggregate_gen_at ft g); [|exact Hn|].
+  - intros firsts c Hfirsts Hc. destruct c as [d|d|d|d|d values strict]; cbn [tr_col_Subset_all];
+      try apply tr_col_Subset_eq.
+    rewrite (ga_scolumn_Subset_eq (srep d) d firsts (Hrep d Hc) (HsubS d firsts Hc Hfirsts)). apply m_col_Subset_ints.
+  - intros c a Hc Ha _. unfold agg_pair. rewrite <- m_col_Aggregate_ints.
+    destruct c as [d|d|d|d|d values strict]; cbn [tr_col_Aggregate_all tr_col_Aggregate].
+    + apply ga_icolumn_Aggregate_eq.
+    + destruct (Hf d a Hc Ha) as [Hs Hav]. apply ga_fcolumn_Aggregate_eq; assumption.
+    + apply ga_bcolumn_Aggregate_eq.
+    + apply (ga_scolumn_Aggregate_eq ft (srep d) d (gindices g) (agfn a) (Hrep d Hc) (HaggS _ a Hc Ha)).
+    + apply (ga_ecolumn_Aggregate_eq ft d values strict (gindices g) (agfn a) (HaggS _ a Hc Ha)).
+Qed.
+
+(* the struct scolumn.New builds for d: one representation that satisfies srep_ok (within the limits) *)
+Definition new_scol (d : list (option bytes)) : ga_scolumn_Column := ga_mk_scolumn_Column (layout d 0) (bytes_of d).
+
+(* decidable forms of the limits, for examples *)
+Definition strs_small_b (l : list (option bytes)) : bool :=
+  (Z.of_nat (length (bytes_of l)) <? 2^35) && forallb (fun o => Z.of_nat (length (str_bytes o)) <? 2^28) l.
+Lemma strs_small_b_sound l : strs_small_b l = true -> strs_small l 0.
+Proof.
+  unfold strs_small_b, strs_small. intro H. apply andb_prop in H. destruct H as [H1 H2]. split; [lia|].
+  apply Forall_forall. intros o Ho. rewrite forallb_forall in H2. specialize (H2 o Ho). lia.
+Qed.
+
+(* the invariant as a representation statement from offset 0 *)
+Lemma rep_scol_layoutL (l : list (option bytes)) (ls : list Z) :
+  strs_small l 0 -> lens_ok ls -> rep_scol (ga_mk_scolumn_Column (layoutL ls l 0) (bytes_of l)) l.
+Proof.
+  intros H Hls i. pose proof (rep_layoutL l ls [] [] H Hls i) as R. cbn [length Z.of_nat app] in R.
+  rewrite app_nil_r in R. exact R.
+Qed.
